@@ -1,6 +1,7 @@
 """C06 — Prebuilt instances form a well-formed, correctly typed population.
 
-Same programs and homes as C05 (harness/gen_oal_action.py).  After `prebuild_action` / `prebuild_model` on a fresh
+Same programs and homes as C05 (harness/gen_oal_action.py), including the bodies with event statements (these have
+no Lean counterpart: direct predicate only).  After `prebuild_action` / `prebuild_model` on a fresh
 base model, the property predicate D is evaluated on the REAL population:
 
   integrity   violations ADDED by prebuilding = 0: `check_link_integrity` on both links of every association with
